@@ -122,7 +122,7 @@ class BaseWorklist(list):
             self.append("W;")
             return
 
-        if not isinstance(scheme, int) or not scheme in {1, 2, 3, 4}:
+        if not isinstance(scheme, int) or isinstance(scheme, bool) or not scheme in {1, 2, 3, 4}:
             raise ValueError("scheme must be either 1, 2, 3 or 4")
         self.append(f"W{scheme};")
         return
@@ -181,7 +181,7 @@ class BaseWorklist(list):
             raise InvalidOperationError(
                 "DiTi type can only be switched at the beginning or after a Break/commit step. Read the docstring."
             )
-        if not isinstance(diti_index, int) or diti_index < 0:
+        if not isinstance(diti_index, int) or isinstance(diti_index, bool) or diti_index < 0:
             raise ValueError(f"Invalid diti_index: {diti_index}")
         self.append(f"S;{diti_index}")
         return
@@ -393,7 +393,7 @@ class BaseWorklist(list):
             ("dst_start", dst_start),
             ("dst_end", dst_end),
         ):
-            if not isinstance(pos, int) or pos < 0:
+            if not isinstance(pos, int) or isinstance(pos, bool) or pos < 0:
                 raise ValueError(f"Invalid {pname}: {pos}")
 
         if exclude_wells is None:
